@@ -45,9 +45,12 @@ STMTS = [
     (["zz_password = 'hunter2'"], ["B105"]),
     (["zz_f(zz_a,", "     '/tmp/zz',", "     zz_b)"], ["B108"]),
     (["exec(zz_s)"], ["B102"]),
+    # a finding reported on a later line of its statement (the shell= keyword) with another finding nested on that very line
+    (["subprocess.Popen(zz_c,", "                 stdin=None,", "                 shell=True, env={'k': hashlib.md5(zz_b)})"], ["B602", "B324"]),
+    (["zz_r = zz_wrap(subprocess.call('ls',", "    shell=True),", "    pickle.loads(zz_p))"], ["B602", "B607", "B301"]),
     (["zz_d = {", "    'k': '0.0.0.0',", "}"], ["B104"]),
 ]
-NAMES = {"B101": "assert_used", "B404": "import_subprocess", "B602": "subprocess_popen_with_shell_equals_true",
+NAMES = {"B324": "hashlib_insecure_functions", "B301": "pickle", "B101": "assert_used", "B404": "import_subprocess", "B602": "subprocess_popen_with_shell_equals_true",
          "B603": "subprocess_without_shell_equals_true", "B607": "start_process_with_partial_path",
          "B105": "hardcoded_password_string", "B108": "hardcoded_tmp_directory", "B102": "exec_used",
          "B104": "hardcoded_bind_all_interfaces"}
@@ -168,6 +171,8 @@ def system(R, rng, tier):
                 b = rng.choice(tids + [OTHER, "B110"])
                 placed[s] = (render(text, a, b), kind, None if ids is None else [a if x == "A" else b for x in ids])
             pre = ["import subprocess  # zz"] if any("subprocess." in l for l in lines) else []
+            if any("hashlib." in l or "pickle." in l for l in lines):
+                pre = pre + ["import hashlib, pickle  # zz"]
             body = list(pre)
             if -1 in placed:
                 body.append("zz_before = 1  " + placed[-1][0])
